@@ -97,3 +97,55 @@ def int_consts_in(sl):
         if m:
             out.add(int(m.group(1)))
     return out
+
+
+_SUCCESS = {'std::result::Result': 'Ok', 'std::option::Option': 'Some', 'std::ops::ControlFlow': 'Continue'}
+
+
+def succeeded_before(fn, site_block, is_target, _depth=0):
+    """Every path to `site_block` passed a call accepted by `is_target(term)` AND saw it return its success variant.
+
+    Decided by value provenance, not by the shape of the error handling: some branch edge that dominates the site selects
+    the success variant (Ok / Some / Continue) of a value whose success payload can only have been produced (through `?`,
+    map_err / or / ok_or, moves, and the return slot of an inlined helper) by a target call -- or by a call that is
+    itself only reachable after the target succeeded."""
+    from . import origins
+    if _depth > 4:
+        return False
+    for s in fn.doms(site_block):
+        preds = [p for p in fn.preds()[s] if p in fn.idom() and not fn.dominates(s, p)]
+        if len(preds) != 1:
+            continue
+        t = fn.blocks[preds[0]]['term']
+        if t['k'] != 'switch' or not is_place(t['op']) or t['op']['pl']['p']:
+            continue
+        sd = fn.single_def(t['op']['pl']['l'])
+        if not sd or sd[2] != 'assign' or sd[3]['rv']['k'] != 'discr':
+            continue
+        dpl = sd[3]['rv']['pl']
+        ty = fn.local_ty(dpl['l']) if not dpl['p'] else (dpl.get('ty') or '')
+        want = next((v for pre, v in _SUCCESS.items() if ty.startswith(pre)), None)
+        if want is None:
+            continue
+        order = {'Ok': 0, 'Some': 1, 'Continue': 0}[want]
+        vals = [v for v, tb in t['targets'] if tb == s]
+        if vals == [order] and t['otherwise'] != s:
+            pass
+        elif t['otherwise'] == s and not vals and sorted(v for v, _ in t['targets']) == [1 - order]:
+            pass
+        else:
+            continue
+        leaves = origins.trace(fn, dpl['l'], origins.norm_path(dpl['p']) + [('down', want)], at=(sd[0], sd[1]))
+        if not leaves:
+            continue
+        ok = True
+        for lf in leaves:
+            if lf[0] == 'call' and is_target(lf[2]):
+                continue
+            if lf[0] in ('call', 'rv') and succeeded_before(fn, lf[1], is_target, _depth + 1):
+                continue
+            ok = False
+            break
+        if ok:
+            return True
+    return False
